@@ -165,6 +165,8 @@ fn main() {
             let mut rva_release = std::path::PathBuf::new();
             let mut tag = String::new();
             let mut replay: Option<std::path::PathBuf> = None;
+            let mut shard: Option<(usize, usize)> = None;
+            let mut acc_out: Option<std::path::PathBuf> = None;
             let mut i = 3;
             while i < args.len() {
                 let v = args.get(i + 1).cloned().unwrap_or_default();
@@ -177,6 +179,11 @@ fn main() {
                     "--rva-release" => rva_release = v.into(),
                     "--tag" => tag = v,
                     "--replay" => replay = Some(v.into()),
+                    "--shard" => {
+                        let (a, b) = v.split_once(':').unwrap_or(("0", "0"));
+                        shard = Some((a.parse().unwrap_or(0), b.parse().unwrap_or(0)));
+                    }
+                    "--acc-out" => acc_out = Some(v.into()),
                     _ => {}
                 }
                 i += 2;
@@ -193,6 +200,8 @@ fn main() {
                 checked_build: cfg!(debug_assertions),
                 tag,
                 replay,
+                shard,
+                acc_out,
             };
             std::process::exit(props::run(&ctx));
         }
